@@ -201,3 +201,20 @@ Proof.
   - unfold snap_single. destruct (negb _); cbn; discriminate.
   - unfold snap_empty. destruct (negb _); cbn; discriminate.
 Qed.
+
+(* the newest tick the receiver has seen only moves to the tick of the message *)
+Lemma newest_seen_step s m :
+  newest_seen (fst (recv_step s m)) = newest_seen s \/ newest_seen (fst (recv_step s m)) = Some (msg_tick m).
+Proof.
+  destruct (can_receive s (msg_tick m)) eqn:Hc.
+  2:{ left. destruct m as [tick dt np part crc d|tick dt crc d|tick dt]; cbn [recv_step msg_tick] in *.
+      - rewrite snap_refused, Hc. reflexivity.
+      - unfold snap_single. rewrite Hc. reflexivity.
+      - unfold snap_empty. rewrite Hc. reflexivity. }
+  destruct (msg_wellformed m) eqn:Hw; [right; apply accepted_newest; assumption|left].
+  destruct m as [tick dt np part crc d|tick dt crc d|tick dt]; cbn [msg_wellformed] in Hw; try discriminate.
+  cbn [recv_step msg_tick] in *. rewrite snap_refused, Hc. cbn [negb].
+  destruct ((0 <=? np) && (np <=? 32)) eqn:E1; cbn [negb]; [|reflexivity].
+  destruct ((0 <=? part) && (part <? np)) eqn:E2; cbn [negb]; [|reflexivity].
+  exfalso. lia.
+Qed.
